@@ -138,7 +138,7 @@ impl Monitor for LedgerMonitor {
                     moved = true;
                 }
                 Receipt::MessageOut { amount, .. } => {
-                    let base: [u8; 32] = AssetId::BASE.into();
+                    let base: [u8; 32] = super::world::base_asset().into();
                     if external {
                         add(&mut expected, 0, [0; 32], base, -(*amount as i128));
                     } else {
@@ -210,7 +210,7 @@ pub fn check_conservation(
     let min_gas = orig.min_gas(params.gas_costs(), params.fee_params()) as u128;
     let factor = params.fee_params().gas_price_factor().max(1) as u128;
     let fee = ((min_gas + gas_used as u128) * sc.gas_price as u128).div_ceil(factor) + spec.tip as u128;
-    let base: [u8; 32] = AssetId::BASE.into();
+    let base: [u8; 32] = super::world::base_asset().into();
 
     let mut assets: std::collections::BTreeSet<[u8; 32]> = Default::default();
     let mut inputs: BTreeMap<[u8; 32], u128> = BTreeMap::new();
